@@ -8,7 +8,8 @@ from .. import core
 
 PROP = "C07"
 MODULE = "GmqttVerif.Properties.C07"
-THEOREMS = ["GmqttVerif.C07Order.retained_updated_between_hook_and_delivery",
+THEOREMS = ["GmqttVerif.C07Order.retained_updated_between_hook_and_delivery", "GmqttVerif.C07Order.store_then_deliver_never_loses",
+            "GmqttVerif.C07Order.deliver_then_store_can_lose", "GmqttVerif.C07Order.source_orders_are_safe",
             "GmqttVerif.Retained.retained_refines_map", "GmqttVerif.Retained.matched_exact",
             "GmqttVerif.Retained.iterate_exact", "GmqttVerif.Retained.iterate_stop_prefix",
             "GmqttVerif.Retained.matched_exact_hashLast",
